@@ -21,7 +21,7 @@ RULE = ("Code-built schemas from valid specs under drawn permutations of `types=
         "(spec, order, injected labels).")
 ASSUMPTIONS = [
     "Violations are injected into different types because the validator stops inspecting an element after some findings (not asserted).",
-    "Not asserted (not in the property's rule list and not implemented): root types sharing one object, direct assignment to schema.default_resolver.",
+    "Not asserted (not in the property's rule list and not implemented): root types sharing one object, direct assignment to schema.default_resolver (a plain attribute) *after* a validation; assigned before the first validation it is part of the histories.",
 ]
 BUDGET = {"quick": 150, "thorough": 3000}
 
@@ -314,24 +314,46 @@ def check_case(case, ctx=None):
         if ctx is not None:
             for lab, _, _ in inj["items"]:
                 ctx.event("injected:" + lab)
-    # 3. resolver registration history
+    # 3. resolver registration history: field resolvers, per-type default resolvers, the schema-wide default resolver
+    #    (assigned before the first validation only: a plain attribute cannot invalidate anything, see ASSUMPTIONS).
+    #    Model: the resolver in charge of a field is its own, else its object type's default, else the schema-wide default
+    #    (the executor's order of precedence); the schema is valid iff none of the resolvers in charge is a bad one.
     hist = case.get("history")
     if hist:
         schema = build(spec, {}, case["orders"][0])
-        state = {}
+        state, tdef, sdef = {}, {}, [False]
         prev = None
+
+        def model_valid():
+            for tn in spec["order"]:
+                t = spec["types"][tn]
+                if t["kind"] == "interface" and sdef[0]:
+                    return False
+                if t["kind"] == "object":
+                    for f in t["fields"]:
+                        if state.get((tn, f["name"]), tdef.get(tn, sdef[0])):
+                            return False
+            return True
+
         for step in hist:
-            if step[0] == "register":
-                _, tn, fn, kind = step
+            if step[0] in ("register", "type-default", "schema-default"):
+                kind = step[-1]
                 res = GOOD_RESOLVERS[kind] if isinstance(kind, int) else BAD_RESOLVERS[kind]
                 try:
-                    schema.register_resolver(tn, fn, res, allow_override=True)
+                    if step[0] == "register":
+                        schema.register_resolver(step[1], step[2], res, allow_override=True)
+                        state[(step[1], step[2])] = not isinstance(kind, int)
+                    elif step[0] == "type-default":
+                        schema.register_default_resolver(step[1], res, allow_override=True)
+                        tdef[step[1]] = not isinstance(kind, int)
+                    else:
+                        schema.default_resolver = res
+                        sdef[0] = not isinstance(kind, int)
                 except Exception as e:  # noqa
                     vios.append(("C13/register_resolver-raises/%s" % type(e).__name__, repr(e)))
                     break
-                state[(tn, fn)] = not isinstance(kind, int)
             else:
-                want_valid = not any(state.values())
+                want_valid = model_valid()
                 try:
                     schema.validate()
                     got = True
@@ -341,11 +363,16 @@ def check_case(case, ctx=None):
                     vios.append(("C13/validate-raises/%s@%s" % (type(e).__name__, H.frame_of(e)), repr(e)))
                     break
                 if got != want_valid:
-                    vios.append(("C13/verdict-not-recomputed-after-resolver-change/%s" % ("stale-valid" if got else "stale-invalid"),
-                                 "history=%r registered-bad=%r" % (hist, [k for k, v in state.items() if v])))
+                    with_defaults = "/with-default-resolvers" if (tdef or sdef[0] or any(x[0] == "schema-default" for x in hist)) else ""
+                    name = "verdict-ignores-the-resolver-in-charge" if with_defaults else "verdict-not-recomputed-after-resolver-change"
+                    vios.append(("C13/%s/%s%s" % (name, "stale-valid" if got else "stale-invalid", with_defaults),
+                                 "history=%r registered-bad=%r type-defaults=%r schema-default-bad=%r" % (
+                                     hist, [k for k, v in state.items() if v], tdef, sdef[0])))
                     break
                 if ctx is not None and prev is not None and prev != got:
                     ctx.event("validate-after-change-of-validity")
+                if ctx is not None and tdef and any(x[0] == "schema-default" for x in hist):
+                    ctx.event("validate-with-type-and-schema-default-resolvers")
                 prev = got
     return vios
 
@@ -387,9 +414,15 @@ def cases(draw):
         objs = [(n, f["name"]) for n in spec["order"] if spec["types"][n]["kind"] == "object" for f in spec["types"][n]["fields"] if not f.get("args")]
         if objs:
             hist = []
+            kinds = [0, 1, 2, "resolver-too-few-positionals", "resolver-extra-required-parameter", "bad-arity"]
+            if draw(st.booleans()):
+                hist.append(("schema-default", draw(st.sampled_from(kinds))))
             for _ in range(draw(st.integers(2, 7))):
-                if draw(st.integers(0, 2)) == 0:
+                k3 = draw(st.integers(0, 3))
+                if k3 == 0:
                     hist.append(("validate",))
+                elif k3 == 3:
+                    hist.append(("type-default", draw(st.sampled_from(sorted({o[0] for o in objs}))), draw(st.sampled_from(kinds))))
                 else:
                     tn, fn = draw(st.sampled_from(objs))
                     kind = draw(st.sampled_from([0, 1, 2, "resolver-too-few-positionals", "resolver-extra-required-parameter", "bad-arity"]))
